@@ -112,7 +112,7 @@ var verifIpkSlots = []string{"preinst", "postinst", "prerm", "postrm"}
 
 // Verif_C09_IpkScripts: configured scripts are control members under their opkg name, verbatim, mode 0755.
 func Verif_C09_IpkScripts() {
-	sc := scen.Payload(scen.Options{})
+	sc := scen.Payload(scen.Options{UmaskChoice: true})
 	mt := time.Unix(1500000000, 0).UTC()
 	var body [4][]byte
 	var set [4]bool
